@@ -3,11 +3,12 @@
 # still applies to the current /repo HEAD, else patch_ported_to_fixed_tree.diff), runs the quick check of its own property (plus
 # any extra checks listed in EXTRA_<id>), reverts, and writes seeded/<id>/caught_by.json
 cd /verif
+EVBAK=$(mktemp -d); cp -r /verif/evidence/. $EVBAK/ 2>/dev/null
 ids=${@:-$(ls seeded | grep -E '^C[0-9]+[ab]$')}
 for id in $ids; do
   d=seeded/$id; prop=${id:0:3}
   patch=""
-  for cand in $d/patch.diff $d/patch_ported_to_fixed_tree.diff; do
+  for cand in $d/patch_ported_to_fixed_tree.diff $d/patch.diff; do
     [ -f $cand ] && git -C /repo apply --check $PWD/$cand 2>/dev/null && { patch=$PWD/$cand; break; }
   done
   if [ -z "$patch" ]; then echo "$id: NO APPLICABLE PATCH"; continue; fi
@@ -26,3 +27,5 @@ for id in $ids; do
   echo "$res" > $d/caught_by.json
   git -C /repo reset -q --hard HEAD; rm -rf /verif/replays
 done
+# evidence files are rewritten by every run: put back the ones produced on the unchanged tree
+rm -rf /verif/evidence; mkdir -p /verif/evidence; cp -r $EVBAK/. /verif/evidence/; rm -rf $EVBAK
